@@ -400,7 +400,14 @@ impl Envelope {
     /// this particular recipient.
     #[cfg(feature = "encrypt")]
     fn first_plaintext_in_sealed_messages(sealed_messages: &[SealedMessage], private_key: &dyn Decrypter) -> Result<Vec<u8>> {
+        // Only sealed messages made for this key's encapsulation scheme can
+        // be opened by it (opening an ML-KEM message with a key of another
+        // security level is not merely an error in the underlying library).
+        let scheme = private_key.encapsulation_private_key().encapsulation_scheme();
         for sealed_message in sealed_messages {
+            if sealed_message.encapsulation_scheme() != scheme {
+                continue;
+            }
             let a = sealed_message.decrypt(private_key).ok();
             if let Some(plaintext) = a {
                 return Ok(plaintext);
